@@ -44,4 +44,19 @@ def getIntersection (db : Db) (column : Py.Str) (mnames : List Py.Str) : Except 
         | none => [])))
   | _, _ => .error .operational
 
+/-- component `k` of every joined tuple, in the order of the join -/
+def component (joined : List (List Row)) (k : Nat) : Table := joined.filterMap (fun tup => tup[k]?)
+
+/-- `many2sql.intersect(match)`: `get_intersection('*', match)`, then for every structure its aligned rows are
+    written by `data2pdb` and parsed into a table of the same name of a NEW database (`roundtrip` = parse ∘ export);
+    an empty intersection cannot be turned into a database (IndexError on the empty list of lines) -/
+def intersect (roundtrip : Table → Table) (db : Db) (mnames : List Py.Str) : Except Err Db :=
+  if !db.extra.isEmpty then .error (.unmodelled "added columns in a many2sql join") else
+  match mnames.mapM matchCol with
+  | none => .error .operational
+  | some m =>
+    let joined := joinRows m (db.tabs.map (·.rows))
+    if joined.isEmpty || db.tabs.isEmpty then .error .indexError
+    else .ok { tabs := db.tabs.zipIdx.map (fun ti => { name := ti.1.name, rows := roundtrip (component joined ti.2) }) }
+
 end Model
